@@ -129,6 +129,9 @@ def run(pid, tier, seed, replay=None):
                             for j in range(4 if tier == "quick" else 40):
                                 scripts.append(mtcheck.mk("C07x%d.%s.%s.%d" % (seed, name, m, j), body, m, det=0,
                                                           seed=rr.randint(1, 1 << 30), faults=faults, sticky=rr.choice([0, 1, 3])))
+                # ... and the TLC-generated registration programs (spec/GenEventReg.tla) that contain a failure
+                gs = [x for x in mtcheck.eventreg_scripts(sc, "thorough", seed, "C07") if "\nF " in x]
+                scripts += gs[seed % 4::4] if tier == "quick" else gs
         idx = corerun.script_index(scripts)
         tfs = corerun.run_scripts(exe, scripts, sc, tag="run")
         verdicts, nev = vlib.validate_traces(tfs, sc)
